@@ -91,6 +91,10 @@ PROGRAMS = {
                          "    pub struct X;\n    #[::entrait::entrait]\n    impl {TR} for X {{\n        pub fn k(deps: %s, target: i64) -> i64 {{ target * 2 }}\n    }}\n"
                          "    pub struct App;\n    impl DelegateUsr<Self> for App {{ type Target = X; }}" % ANY,
                          ['let app = ::entrait::Impl::new(App);', 'rt::out("r", Usr::k(&app, 2));'], "4"),
+    "static_target_byval": ("#[::entrait::entrait({TR}Impl, delegate_by = Delegate{TR})]\n    pub trait {TR} {{ fn k(self, target: i64) -> i64; }}\n"
+                            "    pub struct X;\n    impl {TR}Impl<App> for X {{ fn k(__impl: ::entrait::Impl<App>, target: i64) -> i64 {{ target * 2 }} }}\n"
+                            "    pub struct App;\n    impl Delegate{TR}<Self> for App {{ type Target = X; }}",
+                            ['rt::out("r", {TR}::k(::entrait::Impl::new(App), 2));'], "4"),
     "dyn_target_async": ("#[::entrait::entrait({TR}Impl, delegate_by = ref)]\n    #[::async_trait::async_trait]\n    pub trait {TR} {{ async fn k(&self, target: i64) -> i64; }}\n"
                          "    pub struct X;\n    #[::entrait::entrait(ref)]\n    #[::async_trait::async_trait]\n    impl {TR}Impl for X {{\n        pub async fn k(deps: %s, target: i64) -> i64 {{ target * 2 }}\n    }}\n"
                          "    pub struct App(pub X);\n    impl ::core::convert::AsRef<dyn {TR}Impl<Self> + ::core::marker::Sync> for App {{ fn as_ref(&self) -> &(dyn {TR}Impl<Self> + ::core::marker::Sync + 'static) {{ &self.0 }} }}" % ANY,
